@@ -42,6 +42,24 @@ struct Dom : CompositeBase
             }
         for (int c = 0; c < (int)m.c.size(); ++c)
             if (m.c[c].live) ops.push_back(Op{"set_name", {c}, {"\xc3\x9cn\xc3\xaf" + std::to_string(m.names)}});
+        // 2.x: positioned creations with EVERY live crate as the anchor - siblings (accepted) and crates from elsewhere in the tree (to be
+        // refused; if one is accepted, the chains of the resulting state are judged like any other state's)
+        if (w.v2)
+        {
+            std::vector<int> lc;
+            for (int c = 0; c < (int)m.c.size(); ++c)
+                if (m.c[c].live) lc.push_back(c);
+            if ((int)lc.size() < max_crates() && (int)m.c.size() < max_crates() + 2)
+            {
+                const std::string nm = "a" + std::to_string(m.names);
+                for (int a : lc)
+                {
+                    ops.push_back(Op{"create_root_after", {a}, {nm}});
+                    for (int p : lc)
+                        if (p != a) ops.push_back(Op{"create_sub_after", {p, a}, {nm}});
+                }
+            }
+        }
         return ops;
     }
     static bool step(World& w, Model& m, const Op& op, const Outcome& r, Agg& a, const std::string&, bool checking)
@@ -276,7 +294,7 @@ int run(const Options& o)
     c["evaluations"] = total.get("evaluations");
     c["distinct_nontrivial"] = total.ndistinct("nontrivial");
     c["rule"] =
-        "Every distinct state of the composite exploration extended with set_relative_path (no extension / dotted directory) and renames to a multi-byte UTF-8 name. In each state an independent "
+        "Every distinct state of the composite exploration extended with set_relative_path (no extension / dotted directory) renames to a multi-byte UTF-8 name and, on 2.x, positioned creations (create_root_crate_after / create_sub_crate_after) with every live crate as the anchor. In each state an independent "
         "reader (raw SQL on the captured connection, never the library's accessors; blobs through refcodec) checks: PRAGMA integrity_check and foreign_key_check clean on every attached file; "
         "verify() passes; every performance blob unframes and decodes; 1.x: Crate.path equals the ancestor titles spelled by CrateParentList, every crate has exactly one parent-list row, "
         "CrateHierarchy is exactly the transitive closure, no MetaData / MetaDataInteger / PerformanceData / CrateTrackList rows for removed tracks or crates, filename and file-extension metadata "
